@@ -1,5 +1,6 @@
 import Tyme.Driver.Util
 import Tyme.Driver.P01
+import Tyme.Driver.P14
 import Tyme.Driver.P09
 import Tyme.Driver.P18
 import Tyme.Driver.P04
@@ -23,6 +24,7 @@ def execOpAll (op : String) (a : List Int) : String :=
     <|> (P04.execOp op a)
     <|> (P18.execOp op a)
     <|> (P09.execOp op a)
+    <|> (P14.execOp op a)
     -- DISPATCH-EXEC   <|> (Pxx.execOp op a)
   match r with
   | none => "bad-op"
@@ -40,6 +42,7 @@ def specOpAll (op : String) (a : List Int) : String :=
     <|> (P04.specOp op a)
     <|> (P18.specOp op a)
     <|> (P09.specOp op a)
+    <|> (P14.specOp op a)
     -- DISPATCH-SPEC   <|> (Pxx.specOp op a)
   match r with
   | none => "n/a"
@@ -56,6 +59,7 @@ def runEnumAll (name : String) (args : List String) (out : IO.FS.Stream) : Optio
   <|> (P04.runEnum name args out)
   <|> (P18.runEnum name args out)
   <|> (P09.runEnum name args out)
+  <|> (P14.runEnum name args out)
   -- DISPATCH-ENUM   <|> (Pxx.runEnum name args out)
 
 def lineWith (f : String → List Int → String) (line : String) : String :=
